@@ -124,6 +124,59 @@ Proof.
   apply (Hm w1 w2 id i1 i2); auto. rewrite <- C1, <- C2. exact Es.
 Qed.
 
+(* ---------- the transform id can be read back when the command string contains no NUL ---------- *)
+Lemma split_at_nul (l1 l2 r1 r2 : list N) : ~ In 0 l1 -> ~ In 0 l2 ->
+  l1 ++ 0 :: r1 = l2 ++ 0 :: r2 -> l1 = l2 /\ r1 = r2.
+Proof.
+  revert l2. induction l1 as [|x l1 IH]; intros [|y l2] H1 H2 E; cbn [app] in E.
+  - injection E as E. auto.
+  - injection E as E1 E2. exfalso. apply H2. left. auto.
+  - injection E as E1 E2. exfalso. apply H1. left. auto.
+  - injection E as E1 E2. subst y.
+    destruct (IH l2) as [A B]; auto.
+    + intros X. apply H1. right. exact X.
+    + intros X. apply H2. right. exact X.
+    + subst. auto.
+Qed.
+
+Definition nul_free_cmd (c : tconf) : Prop := ~ In 0 (t_cmd c).
+
+Lemma transform_id_inj c1 c2 : nul_free_cmd c1 -> nul_free_cmd c2 -> transform_id c1 = transform_id c2 -> c1 = c2.
+Proof.
+  destruct c1 as [m1 i1 k1], c2 as [m2 i2 k2]. unfold nul_free_cmd, transform_id. cbn [t_cmd t_inplace t_copy].
+  intros H1 H2 E. apply split_at_nul in E; auto. destruct E as [-> E].
+  assert (Hip : ~ In 0 inplace_str) by (unfold inplace_str; cbn [In]; intros X; repeat (destruct X as [X|X]; [discriminate X|]); exact X).
+  apply split_at_nul in E.
+  - destruct E as [Ei Ek]. f_equal.
+    + destruct i1, i2; auto; discriminate Ei.
+    + destruct k1, k2; auto; discriminate Ek.
+  - destruct i1; [exact Hip|intros []].
+  - destruct i2; [exact Hip|intros []].
+Qed.
+
+Lemma transform_id_not_none c : transform_id c <> none_str.
+Proof.
+  intros E. assert (X : In 0 (transform_id c)).
+  { unfold transform_id. apply in_or_app. right. left. reflexivity. }
+  rewrite E in X. unfold none_str in X. cbn [In] in X.
+  repeat (destruct X as [X|X]; [discriminate X|]). exact X.
+Qed.
+
+(* every transform command in use is free of NUL bytes (it came in as a command line argument) *)
+Definition nul_free (cs : list (N * option tconf)) : Prop :=
+  forall a c, In (a, Some c) cs -> nul_free_cmd c.
+
+Lemma nul_free_no_alias cs : nul_free cs -> forall a1 t1 a2 t2, In (a1, t1) cs -> In (a2, t2) cs ->
+  tree_of a1 t1 = tree_of a2 t2 -> t1 = t2.
+Proof.
+  intros Hn a1 t1 a2 t2 I1 I2 E. unfold tree_of in E. injection E as _ E.
+  destruct t1 as [c1|], t2 as [c2|].
+  - f_equal. apply transform_id_inj; eauto.
+  - exfalso. eapply transform_id_not_none; eauto.
+  - exfalso. eapply transform_id_not_none; eauto.
+  - reflexivity.
+Qed.
+
 Section Proofs.
 Variable H : N -> bytes -> hashv.
 Variable T : tconf -> bytes -> option bytes.
@@ -140,7 +193,7 @@ Definition same_tr (t1 t2 : option tconf) : Prop :=
 Definition tree_faithful (cs : list (N * option tconf)) : Prop :=
   forall a1 t1 a2 t2, In (a1, t1) cs -> In (a2, t2) cs -> tree_of a1 t1 = tree_of a2 t2 -> same_tr t1 t2.
 
-(* syntactic sufficient condition: configurations in use that get the same tree are the same configuration *)
+(* configurations in use that get the same tree are the same configuration *)
 Definition no_alias (cs : list (N * option tconf)) : Prop :=
   forall a1 t1 a2 t2, In (a1, t1) cs -> In (a2, t2) cs -> tree_of a1 t1 = tree_of a2 t2 -> t1 = t2.
 
@@ -149,6 +202,10 @@ Proof.
   intros Hn a1 t1 a2 t2 I1 I2 E. rewrite (Hn a1 t1 a2 t2 I1 I2 E).
   destruct t2; cbn [same_tr]; auto.
 Qed.
+
+(* the tree id determines the transform: a theorem, given NUL-free command strings *)
+Lemma tree_faithful_nul_free cs : nul_free cs -> tree_faithful cs.
+Proof. intros Hn. apply tree_faithful_of. exact (nul_free_no_alias cs Hn). Qed.
 
 (* what a correct entry for content d holds *)
 Definition good (a : N) (tr : option tconf) (k : key) (d : bytes) (e : entry) : Prop :=
